@@ -12,11 +12,14 @@ pub mod common;
 #[cfg(kani)]
 pub mod stubs;
 
+pub mod c07;
 pub mod c08;
 pub mod c09;
 pub mod c10;
 pub mod c11;
 pub mod c13;
+pub mod c15;
+pub mod c16;
 pub mod c17;
 pub mod c20;
 
@@ -26,12 +29,15 @@ pub type NativeFn = fn(&mut BytesSrc);
 
 pub fn registry() -> Vec<(&'static str, NativeFn)> {
     let mut v: Vec<(&'static str, NativeFn)> = Vec::new();
+    v.extend_from_slice(c07::REG);
     v.extend_from_slice(c08::REG);
     v.extend_from_slice(c09::REG);
     v.extend_from_slice(c10::REG);
     v.extend_from_slice(c11::REG);
     v.extend_from_slice(c13::REG);
     v.extend_from_slice(c13::geo::REG);
+    v.extend_from_slice(c15::REG);
+    v.extend_from_slice(c16::REG);
     v.extend_from_slice(c17::REG);
     v.extend_from_slice(c20::REG);
     v
